@@ -78,21 +78,24 @@ def run(run, replay=None):
         cases.append(c)
         run.count(data, nontrivial=res[1] != 'done')
     run.notes['byte_strings_from_MC_Reader'] = len(raws)
-    can = []
-    pool = [c for c in cases if c['end'] == 'parse']
-    for k, c in enumerate(rng.sample(pool, min(8, len(pool)))):
-        z = copy.deepcopy(c)
-        z['canary_of'] = z['id']
-        z['id'] = 'canary-%d' % k
-        if k % 4 == 0:
-            z['end'] = 'other:TypeError'
-        elif k % 4 == 1:
-            z['line'] = len(z['file']) + 5
-        elif k % 4 == 2:
-            z['msgok'] = False
-        else:
-            z['dom'] = {'end': z['dom']['end'], 'closed': False}
-        can.append(z)
+    def _mk_canaries():
+        can = []
+        pool = [c for c in cases if c['end'] == 'parse']
+        for k, c in enumerate(rng.sample(pool, min(8, len(pool)))):
+            z = copy.deepcopy(c)
+            z['canary_of'] = z['id']
+            z['id'] = 'canary-%d' % k
+            if k % 4 == 0:
+                z['end'] = 'other:TypeError'
+            elif k % 4 == 1:
+                z['line'] = len(z['file']) + 5
+            elif k % 4 == 2:
+                z['msgok'] = False
+            else:
+                z['dom'] = {'end': z['dom']['end'], 'closed': False}
+            can.append(z)
+        return can
+    can = run.tolerant(_mk_canaries)
     run.judge('Trace_Reader', cases + can, cat.tables(), canary_ids=[c['id'] for c in can], describe=describe)
     ends = {}
     for c in cases:
